@@ -35,8 +35,8 @@ fn main() {
         let _ = rq.respond(resp);
         let out = String::from_utf8_lossy(&read_available(&mut c)).to_string();
         let head = out.split("\r\n\r\n").next().unwrap_or("").to_ascii_lowercase();
-        let chunked = head.contains("transfer-encoding: chunked");
-        let has_cl = head.contains("content-length:");
+        let chunked = has_header_token(&head, "transfer-encoding", "chunked");
+        let has_cl = !header_values(&head, "content-length").is_empty();
         let want = expected(ver, status, known, len, thr, *te);
         if chunked != want || (chunked && has_cl) {
             bad.push(format!("HTTP/{} status {} len {:?} thr {} TE {:?}: chunked={} (expected {}), content-length present={}", ver, status, if known { Some(len) } else { None }, thr, te, chunked, want, has_cl));
